@@ -1,9 +1,13 @@
 /* Engine `win` (C01, C02): drives /repo/src/window.c (+ rectset.c, renderbuffer.c, term.c) through the public API,
  * on a terminal whose driver is the harness-owned grid driver (griddrv.h).
  *
- *   new <C01|C02> <lines> <cols> <a|p|r|m> <pen>          terminal + root window (id 0); scroll oracle accept/partial/refuse,
+ *   new <C01|C02> <lines> <cols> <a|p|r|m|x> <pen>        terminal + root window (id 0); scroll oracle accept/partial/refuse,
  *                                                         or m: the library's own mock terminal instead of the grid driver
- *                                                         (no resize / scrollmode then)
+ *                                                         (no resize / scrollmode then),
+ *                                                         or x: the library's xterm driver (tickit_term_build, termtype
+ *                                                         "xterm", an output function): no grid is printed, every
+ *                                                         observation ends with X=<the bytes the terminal was sent during
+ *                                                         the operation, hex> (no scrollmode then)
  *   win <id> <parent> <top> <left> <lines> <cols> <flags> <pen>     flags: subset of r(oot-parent) h(idden) l(owest) s(teal), or -
  *   beh <id> <instr>...                                   expose-handler program of a window (default: P)
  *   close|show|hide|raise|raisefront|lower|lowerback <id>
@@ -16,15 +20,30 @@
  *   scrollch <id> <d> <r>            tickit_window_scroll_with_children, then the application's half: every child moved by (-d, -r)
  *                                    with set_geometry, nothing exposed (tickit_window_scroll.3: "does not actually move the child windows")
  *   resize <lines> <cols> | scrollmode <a|p|r> | flush
- *   pen: pen=N (NULL) | pen=fg:bg:b with each field an integer or x (absent)
- *   instr: P | E:t:l:n:k | T:l:c:hex | C:l:c:cp | S:t:l:n:k | K | N:bg:b | X:d:r | L:t:l:n:k
+ *   pen: pen=N (NULL) | pen=fg:bg:b[:rv] with each field an integer or x (absent)
+ *   instr: P | E:t:l:n:k | T:l:c:hex | C:l:c:cp | S:t:l:n:k | K | N:bg:b[:rv] | X:d:r | L:t:l:n:k
  *          | e:dt:dl:dn:dk | t:dl:dc:hex | c:dl:dc:cp | s:dt:dl:dn:dk      (lower case: relative to the handed rectangle)
+ *          | H:line:c0:c1:style:caps | I:l0:l1:col:style:caps               hline_at / vline_at (h, i: relative); style 1..3
+ *          | Y:dt:dl:st:sl:n:k | M:dt:dl:st:sl:n:k       tickit_renderbuffer_copyrect / moverect(dest at dt,dl; src st,sl,n,k),
+ *                                                        coordinates as the library takes them (the source in buffer
+ *                                                        coordinates); not called when the source rectangle is not inside
+ *                                                        the buffer, when some cell of it belongs to another window, or
+ *                                                        when the walk of copyrect would read cells it has written
+ *                                                        (WinRB.copyDomain: see there)
+ *          | V | v | R                                   tickit_renderbuffer_save / savepen / restore; an R with none of the
+ *                                                        handler's own frames on the stack is not executed, frames left
+ *                                                        over are popped when the handler returns
  *          | Z:id | Z:id:t:l:n:k | z:dt:dl:dn:dk     tickit_window_expose from inside the handler (z: own window, relative)
  *
- * Observation (one line per operation):  r=<ret> T=<tree> E=<expose events> G=<grid or ->
+ * Observation (one line per operation):  r=<ret> T=<tree> E=<expose events> G=<grid or -> [W=<writes>] [X=<bytes>]
+ *   writes (C02 only): for every handler invocation of a flush, in the order of the events, id@<runs>, joined by ;
+ *           runs: line.col.len joined by , (- if none): the render-buffer cells (buffer coordinates) whose content
+ *           differs after the handler returned from what it was when the handler was called - read from the raw state
+ *           of the buffer (tickit_renderbuffer_verif_dump, compiled with -DLIBTICKIT_VERIF; a cell's content is its run's
+ *           kind, pen and, for a text, the string and the column of it: how the line is cut into runs does not count)
  *   tree:   id,parent,top,left,lines,cols,visible,children(dot separated or -) joined by |   (closed window: id,x)
  *   events: id:top,left,lines,cols joined by ;  (- if none)
- *   grid:   rows joined by |, five characters per cell: glyph (two), fg+1, bg+1, bold
+ *   grid:   rows joined by |, five characters per cell: glyph (two), fg+1, bg+1, bold + 2 * reverse
  */
 #define HCOMMON_MAIN
 #include "hcommon.h"
@@ -39,6 +58,9 @@
 
 static GridDrv *gd;
 static TickitMockTerm *mt;       /* second configuration: the library's own mock terminal (scroll oracle m) */
+static int xmode;                /* third configuration: the library's xterm driver writing to an output function (x) */
+static unsigned char *xbuf;      /* the bytes it was handed since the previous observation */
+static size_t xlen, xcap;
 static TickitTerm *tt;
 static TickitWindow *wins[MAXW];
 static int nwins;
@@ -49,6 +71,133 @@ static int nshift[MAXW];
 static int logging;
 static char evbuf[65536];
 static size_t evlen;
+
+static void xt_output(TickitTerm *t, const char *bytes, size_t len, void *user)
+{
+  (void)t; (void)user;
+  if(!bytes || !len) return;      /* (NULL, 0) when the terminal is destroyed */
+  if(xlen + len + 1 > xcap) {
+    xcap = (xlen + len + 1) * 2;
+    xbuf = realloc(xbuf, xcap);
+  }
+  memcpy(xbuf + xlen, bytes, len);
+  xlen += len;
+}
+
+/* ---- what a handler changed in the render buffer (C02) ---- */
+#ifdef LIBTICKIT_VERIF
+void tickit_renderbuffer_verif_dump(TickitRenderBuffer *rb, FILE *fh);
+#endif
+static int c02;                  /* the history checks C02: record the cells every handler changes */
+static char *wbuf;               /* the W= token of the flush in progress */
+static size_t wlen, wcap;
+
+static void wcat(const char *fmt, ...)
+{
+  char tmp[64];
+  va_list ap;
+  va_start(ap, fmt);
+  int n = vsnprintf(tmp, sizeof tmp, fmt, ap);
+  va_end(ap);
+  if(n <= 0) return;
+  if(wlen + n + 1 > wcap) { wcap = (wlen + n + 1) * 2; wbuf = realloc(wbuf, wcap); }
+  memcpy(wbuf + wlen, tmp, n + 1);
+  wlen += n;
+}
+
+typedef struct { int lines, cols; char *text; char **key; int *klen; int *delta; } RBSnap;
+
+/* The content of every cell of the buffer as stored: key = the start cell's token without the run length and the mask
+ * depth (kind, pen, string or line mask or code point), delta = the cell's distance from the start of its run (it
+ * matters for a text only: the column of the string shown). */
+static RBSnap *rb_snapshot(TickitRenderBuffer *rb)
+{
+#ifdef LIBTICKIT_VERIF
+  RBSnap *sn = calloc(1, sizeof *sn);
+  size_t len = 0;
+  FILE *fh = open_memstream(&sn->text, &len);
+  tickit_renderbuffer_verif_dump(rb, fh);
+  fclose(fh);
+  tickit_renderbuffer_get_size(rb, &sn->lines, &sn->cols);
+  size_t n = (size_t)sn->lines * sn->cols;
+  sn->key = calloc(n + 1, sizeof *sn->key); sn->klen = calloc(n + 1, sizeof *sn->klen); sn->delta = calloc(n + 1, sizeof *sn->delta);
+  char *p = strstr(sn->text, " cells=");
+  if(!p) return sn;
+  p += 7;
+  int *start = calloc(n + 1, sizeof *start);
+  for(int l = 0; l < sn->lines; l++) {
+    for(int c = 0; c < sn->cols; c++) {
+      size_t i = (size_t)l * sn->cols + c;
+      char *tok = p;
+      while(*p && *p != ' ' && *p != '/') p++;
+      char *end = p;
+      if(*p) p++;
+      /* <kind><number>m<maskdepth><rest> */
+      char kind = tok[0];
+      char *q = tok + 1;
+      int num = (int)strtol(q, &q, 10);
+      if(*q == 'm') { q++; strtol(q, &q, 10); }
+      if(kind == 'C') start[i] = num;
+      else {
+        start[i] = c;
+        /* the key is the kind letter followed by what comes after the mask depth: put the letter over the last digit
+         * of the mask depth (the dump is a private copy) */
+        q[-1] = kind;
+        sn->key[i] = q - 1; sn->klen[i] = (int)(end - q) + 1;
+        sn->delta[i] = 0;
+      }
+    }
+  }
+  for(int l = 0; l < sn->lines; l++)
+    for(int c = 0; c < sn->cols; c++) {
+      size_t i = (size_t)l * sn->cols + c;
+      if(start[i] != c && start[i] >= 0 && start[i] < sn->cols) {
+        size_t h = (size_t)l * sn->cols + start[i];
+        sn->key[i] = sn->key[h]; sn->klen[i] = sn->klen[h]; sn->delta[i] = c - start[i];
+      }
+    }
+  free(start);
+  return sn;
+#else
+  (void)rb;
+  return NULL;
+#endif
+}
+
+static void rb_snap_free(RBSnap *sn)
+{
+  if(!sn) return;
+  free(sn->text); free(sn->key); free(sn->klen); free(sn->delta); free(sn);
+}
+
+static RBSnap *last_snap;        /* the buffer as the previous handler of this flush left it */
+
+static int snap_cell_same(const RBSnap *a, const RBSnap *b, size_t i)
+{
+  if(!a->key[i] || !b->key[i]) return a->key[i] == b->key[i];
+  if(a->klen[i] != b->klen[i] || memcmp(a->key[i], b->key[i], a->klen[i]) != 0) return 0;
+  /* the same run content: for a text the column shown must be the same too */
+  return a->key[i][0] != 'T' || a->delta[i] == b->delta[i];
+}
+
+/* append id@runs to the W= token */
+static void record_writes(int id, const RBSnap *before, const RBSnap *after)
+{
+  wcat("%s%d@", wlen ? ";" : "", id);
+  if(!before || !after || before->lines != after->lines || before->cols != after->cols) { wcat("?"); return; }
+  int any = 0;
+  for(int l = 0; l < after->lines; l++) {
+    int c = 0;
+    while(c < after->cols) {
+      if(snap_cell_same(before, after, (size_t)l * after->cols + c)) { c++; continue; }
+      int c0 = c;
+      while(c < after->cols && !snap_cell_same(before, after, (size_t)l * after->cols + c)) c++;
+      wcat("%s%d.%d.%d", any ? "," : "", l, c0, c - c0);
+      any = 1;
+    }
+  }
+  if(!any) wcat("-");
+}
 
 static int pmod(int x, int m) { int r = x % m; return r < 0 ? r + m : r; }
 
@@ -102,10 +251,12 @@ static TickitPen *parse_pen(const char *tok, int *isnull)
   TickitPen *pen = tickit_pen_new();
   char *copy = strdup(tok), *save = NULL;
   char *f = strtok_r(copy, ":", &save), *b = f ? strtok_r(NULL, ":", &save) : NULL, *bo = b ? strtok_r(NULL, ":", &save) : NULL;
+  char *rv = bo ? strtok_r(NULL, ":", &save) : NULL;
   int v;
   if(f && parse_field(f, &v)) tickit_pen_set_colour_attr(pen, TICKIT_PEN_FG, v);
   if(b && parse_field(b, &v)) tickit_pen_set_colour_attr(pen, TICKIT_PEN_BG, v);
   if(bo && parse_field(bo, &v)) tickit_pen_set_bool_attr(pen, TICKIT_PEN_BOLD, v);
+  if(rv && parse_field(rv, &v)) tickit_pen_set_bool_attr(pen, TICKIT_PEN_REVERSE, v);
   free(copy);
   return pen;
 }
@@ -132,8 +283,60 @@ static void paint(int id, const TickitRect *rect, TickitRenderBuffer *rb)
   }
 }
 
+/* WinRB.safeDirection: the walk of copyrect (chosen from lo, co) never reads a cell it has already written when the real
+ * displacement is (dl, dc) */
+static int safe_direction(int n, int k, int lo, int co, int dl, int dc)
+{
+  if(abs(dl) >= n || abs(dc) >= k) return 1;
+  if(dl > 0 && lo > 0) return 1;
+  if(dl < 0 && lo <= 0) return 1;
+  if(dl == 0) {
+    int leftwards = (lo == 0 && co > 0);
+    if(dc > 0 && leftwards) return 1;
+    if(dc < 0 && !leftwards) return 1;
+    if(dc == 0) return 1;
+  }
+  return 0;
+}
+
+#define MAXFRAMES 64
+
+static int win_id(TickitWindow *w);
+
+/* The window that owns buffer cell (l, c) in the painter's-model composition of the tree as it stands (WinSpec.ownerAt),
+ * from the public queries; -1 = nobody. */
+static int owner_of(int l, int c)
+{
+  TickitWindow *w = wins[0];
+  TickitRect g = tickit_window_get_geometry(w);
+  if(!tickit_window_is_visible(w) || l < g.top || c < g.left || l >= g.top + g.lines || c >= g.left + g.cols)
+    return -1;
+  l -= g.top; c -= g.left;
+  for(;;) {
+    TickitWindow *ch[MAXW + 1], *next = NULL;
+    size_t n = tickit_window_get_children(w, ch, MAXW + 1);
+    for(size_t k = 0; k < n && !next; k++) {
+      if(!tickit_window_is_visible(ch[k])) continue;
+      TickitRect r = tickit_window_get_geometry(ch[k]);
+      if(l >= r.top && l < r.top + r.lines && c >= r.left && c < r.left + r.cols) {
+        next = ch[k]; l -= r.top; c -= r.left;
+      }
+    }
+    if(!next) return win_id(w);
+    w = next;
+  }
+}
+
 static void run_prog(int id, const char *prog, const TickitRect *rect, TickitRenderBuffer *rb)
 {
+  /* the translation in force (the library has no query for it): the window's position in the buffer on entry,
+   * then what the program itself does */
+  TickitRect abs = tickit_window_get_abs_geometry(wins[id]);
+  int xl = abs.top, xc = abs.left;
+  struct { int xl, xc, pen_only; } frames[MAXFRAMES];
+  int nframes = 0;
+  int rblines, rbcols;
+  tickit_renderbuffer_get_size(rb, &rblines, &rbcols);
   char *copy = strdup(prog), *save = NULL;
   for(char *ins = strtok_r(copy, " ", &save); ins; ins = strtok_r(NULL, " ", &save)) {
     char *f[8]; int nf = 0; char *s2 = NULL;
@@ -164,18 +367,62 @@ static void run_prog(int id, const char *prog, const TickitRect *rect, TickitRen
         break;
       case 'K': tickit_renderbuffer_clear(rb); break;
       case 'N':
-        if(nf == 3) {
+        if(nf == 3 || nf == 4) {
           TickitPen *pen = tickit_pen_new();
           int v;
           tickit_pen_set_colour_attr(pen, TICKIT_PEN_FG, id + 1);   /* the writer tag */
           if(parse_field(f[1], &v)) tickit_pen_set_colour_attr(pen, TICKIT_PEN_BG, v);
           if(parse_field(f[2], &v)) tickit_pen_set_bool_attr(pen, TICKIT_PEN_BOLD, v);
+          if(nf == 4 && parse_field(f[3], &v)) tickit_pen_set_bool_attr(pen, TICKIT_PEN_REVERSE, v);
           tickit_renderbuffer_setpen(rb, pen);
           tickit_pen_unref(pen);
         }
         break;
       case 'X':
-        if(nf == 3) tickit_renderbuffer_translate(rb, atoi(f[1]), atoi(f[2]));
+        if(nf == 3) {
+          tickit_renderbuffer_translate(rb, atoi(f[1]), atoi(f[2]));
+          xl += atoi(f[1]); xc += atoi(f[2]);
+        }
+        break;
+      case 'H': case 'h':
+        if(nf == 6 && atoi(f[4]) >= 1 && atoi(f[4]) <= 3 && atoi(f[5]) >= 0 && atoi(f[5]) <= 3)
+          tickit_renderbuffer_hline_at(rb, bt + atoi(f[1]), bl + atoi(f[2]), bl + atoi(f[3]), atoi(f[4]), atoi(f[5]));
+        break;
+      case 'I': case 'i':
+        if(nf == 6 && atoi(f[4]) >= 1 && atoi(f[4]) <= 3 && atoi(f[5]) >= 0 && atoi(f[5]) <= 3)
+          tickit_renderbuffer_vline_at(rb, bt + atoi(f[1]), bt + atoi(f[2]), bl + atoi(f[3]), atoi(f[4]), atoi(f[5]));
+        break;
+      case 'Y': case 'M':
+        if(nf == 7) {
+          TickitRect src  = { .top = atoi(f[3]), .left = atoi(f[4]), .lines = atoi(f[5]), .cols = atoi(f[6]) };
+          TickitRect dest = { .top = atoi(f[1]), .left = atoi(f[2]), .lines = src.lines, .cols = src.cols };
+          int lo = dest.top - src.top, co = dest.left - src.left;
+          int inside = src.top >= 0 && src.left >= 0 && src.lines > 0 && src.cols > 0 &&
+                       src.top + src.lines <= rblines && src.left + src.cols <= rbcols;
+          /* a handler copies cells of its own window only (the source is in buffer coordinates: see WinRB.copyDomain) */
+          int own = inside && src.lines <= 64 && src.cols <= 256;
+          for(int i = 0; own && i < src.lines; i++)
+            for(int j = 0; own && j < src.cols; j++)
+              if(owner_of(src.top + i, src.left + j) != id) own = 0;
+          if(own && ((lo == 0 && co == 0) || safe_direction(src.lines, src.cols, lo, co, lo + xl, co + xc))) {
+            if(k == 'Y') tickit_renderbuffer_copyrect(rb, &dest, &src);
+            else         tickit_renderbuffer_moverect(rb, &dest, &src);
+          }
+        }
+        break;
+      case 'V': case 'v':
+        if(nf == 1 && nframes < MAXFRAMES) {
+          if(k == 'V') tickit_renderbuffer_save(rb); else tickit_renderbuffer_savepen(rb);
+          frames[nframes].xl = xl; frames[nframes].xc = xc; frames[nframes].pen_only = (k == 'v');
+          nframes++;
+        }
+        break;
+      case 'R':
+        if(nf == 1 && nframes > 0) {
+          tickit_renderbuffer_restore(rb);
+          nframes--;
+          if(!frames[nframes].pen_only) { xl = frames[nframes].xl; xc = frames[nframes].xc; }
+        }
         break;
       case 'Z':   /* tickit_window_expose from inside the handler */
         if(nf == 2 || nf == 6) {
@@ -200,6 +447,8 @@ static void run_prog(int id, const char *prog, const TickitRect *rect, TickitRen
     free(icopy);
   }
   free(copy);
+  while(nframes-- > 0)
+    tickit_renderbuffer_restore(rb);
 }
 
 static int on_expose(TickitWindow *win, TickitEventFlags flags, void *_info, void *user)
@@ -211,8 +460,18 @@ static int on_expose(TickitWindow *win, TickitEventFlags flags, void *_info, voi
   if(evlen + 64 < sizeof evbuf)
     evlen += snprintf(evbuf + evlen, sizeof evbuf - evlen, "%s%d:%d,%d,%d,%d", evlen ? ";" : "", id,
         info->rect.top, info->rect.left, info->rect.lines, info->rect.cols);
+  /* between two handler invocations of one flush the library only saves, clips, translates, masks and restores: what
+   * the buffer held when the previous handler returned is what this one finds */
+  RBSnap *before = !c02 ? NULL : last_snap ? last_snap : rb_snapshot(info->rb);
+  last_snap = NULL;
   if(behprog[id]) run_prog(id, behprog[id], &info->rect, info->rb);
   else paint(id, &info->rect, info->rb);
+  if(c02) {
+    RBSnap *after = rb_snapshot(info->rb);
+    record_writes(id, before, after);
+    rb_snap_free(before);
+    last_snap = after;
+  }
   return 1;
 }
 
@@ -241,13 +500,15 @@ static void dump_tree(void)
 }
 
 /* two characters per glyph: ".x" ASCII (space = "~"), "}}" second half of a double-width character,
- * "Wx" the fullwidth form of ASCII x (U+FF01..U+FF5E), "{{" anything else */
+ * "Wx" the fullwidth form of ASCII x (U+FF01..U+FF5E), "bh".."ih" the box-drawing character U+2500 + 16 * (letter - b) + h,
+ * "{{" anything else */
 static void glyph_chars(int g, char *out)
 {
   if(g == 32) { out[0] = '.'; out[1] = '~'; }
   else if(g == 0) { out[0] = '}'; out[1] = '}'; }
   else if(g >= 33 && g <= 122) { out[0] = '.'; out[1] = (char)g; }
   else if(g >= 0xff01 && g <= 0xff5e) { out[0] = 'W'; out[1] = (char)(g - 0xfee0); }
+  else if(g >= 0x2500 && g <= 0x257f) { out[0] = (char)('b' + ((g - 0x2500) >> 4)); out[1] = "0123456789abcdef"[g & 15]; }
   else { out[0] = '{'; out[1] = '{'; }
 }
 
@@ -291,7 +552,7 @@ static void dump_grid(void)
       glyph_chars(glyph, row + 5 * c);
       row[5 * c + 2] = (fg >= -1 && fg <= 40) ? '0' + fg + 1 : '!';
       row[5 * c + 3] = (bg >= -1 && bg <= 40) ? '0' + bg + 1 : '!';
-      row[5 * c + 4] = attrs == 0 ? '0' : attrs == 1 ? '1' : '!';
+      row[5 * c + 4] = (attrs & ~5) ? '!' : (char)('0' + (attrs & 1) + ((attrs & 4) ? 2 : 0));
     }
     row[n] = 0;
     obs("%s%s", l ? "|" : "", row);
@@ -306,13 +567,19 @@ static void finish(int ret, int events, int grid)
   dump_tree();
   if(events) obs(" E=%s", evlen ? evbuf : "-");
   else obs(" E=-");
-  if(grid) dump_grid();
+  if(grid && !xmode) dump_grid();
   else obs(" G=-");
+  if(c02 && events) obs(" W=%s", wlen ? wbuf : "-");
+  if(xmode) {
+    obs(" X=");
+    obs_hex(xbuf, xlen);
+    xlen = 0;
+  }
 }
 
 static void engine_begin(void)
 {
-  gd = NULL; mt = NULL; tt = NULL; nwins = 0; evlen = 0; logging = 1;
+  gd = NULL; mt = NULL; tt = NULL; nwins = 0; evlen = 0; logging = 1; xmode = 0; xlen = 0; last_snap = NULL;
   memset(wins, 0, sizeof wins); memset(closedw, 0, sizeof closedw);
   memset(behprog, 0, sizeof behprog); memset(nshift, 0, sizeof nshift);
 }
@@ -320,6 +587,7 @@ static void engine_begin(void)
 static void engine_end(void)
 {
   logging = 0;
+  rb_snap_free(last_snap); last_snap = NULL;
   if(!tt) return;
   /* drain the queue of restack requests, then tear down top-down, keeping every child alive across its parent's
    * destruction (tickit_window_destroy writes child->parent after the unref: property C08, not ours) */
@@ -350,16 +618,25 @@ static void engine_op(int argc, char **argv)
 {
   const char *op = argv[0];
   evlen = 0; evbuf[0] = 0;
+  wlen = 0;
+  rb_snap_free(last_snap); last_snap = NULL;    /* every flush renders into a buffer of its own */
   /* no operation needs more than a few milliseconds of CPU: a loop that does not terminate becomes `CRASH signal=26` */
   struct itimerval lim = { .it_interval = { 0, 0 }, .it_value = { 0, 400000 } };
   setitimer(ITIMER_VIRTUAL, &lim, NULL);
   if(strcmp(op, "new") == 0) {
     if(argc != 6 || tt) { obs("bad-op"); return; }
+    c02 = strcmp(argv[1], "C02") == 0;
     int lines = atoi(argv[2]), cols = atoi(argv[3]);
-    if(lines < 1 || cols < 1 || lines > 64 || cols > 120) { obs("bad-op"); return; }
+    if(lines < 1 || cols < 1 || lines > 64 || cols > 200) { obs("bad-op"); return; }
     if(argv[4][0] == 'm') {
       mt = tickit_mockterm_new(lines, cols);
       tt = (TickitTerm *)mt;
+    }
+    else if(argv[4][0] == 'x') {
+      xmode = 1;
+      tt = tickit_term_build(&(struct TickitTermBuilder){ .termtype = "xterm", .output_func = xt_output });
+      if(!tt) { obs("bad-op"); xmode = 0; return; }
+      tickit_term_set_size(tt, lines, cols);
     }
     else {
       gd = griddrv_new(lines, cols, scrollmode_of(argv[4]));
@@ -415,13 +692,14 @@ static void engine_op(int argc, char **argv)
   }
   if(strcmp(op, "resize") == 0 && argc == 3) {
     int lines = atoi(argv[1]), cols = atoi(argv[2]);
-    if(lines < 1 || cols < 1 || lines > 64 || cols > 120 || mt) { obs("bad-op"); return; }
-    griddrv_resize(gd, tt, lines, cols);
+    if(lines < 1 || cols < 1 || lines > 64 || cols > 200 || mt) { obs("bad-op"); return; }
+    if(xmode) tickit_term_set_size(tt, lines, cols);
+    else griddrv_resize(gd, tt, lines, cols);
     finish(0, 0, 1);
     return;
   }
   if(strcmp(op, "scrollmode") == 0 && argc == 2) {
-    if(mt) { obs("bad-op"); return; }
+    if(mt || xmode) { obs("bad-op"); return; }
     gd->scrollmode = scrollmode_of(argv[1]);
     finish(0, 0, 0);
     return;
